@@ -430,9 +430,8 @@ def run(env):
         enumerated, complete = run_enum(env, stats, 6)
         exh = "all byte strings of length <= 6 over the 24-byte alphabet (complete: %s)" % complete
     extra = {"explanation": exh, "enumerated_byte_strings": enumerated, "panic_sites": sorted(stats.sets.get("panic_sites", []))}
-    if not quick:
-        from . import c05_sanitizers
-        extra["sanitizers"] = c05_sanitizers.run_all(env, stats)
+    from . import c05_sanitizers
+    extra["sanitizers"] = c05_sanitizers.run_all(env, stats, quick=quick)
     # distinct count: enumerated strings are distinct by construction
     code = core.finish(PROP, env.tier, env.seed, LEVEL, stats, env.t0, RULE, min_conclusive=20000 if quick else 10 ** 6,
                        exhaustive=complete, extra=extra, extra_distinct=enumerated,
